@@ -111,7 +111,7 @@ theorem no_visible_change_write (s s' : MS) (r : Ref) (i : Nat) (n : Node) (u : 
     (hni : ¬ Reach s.heap r i) (hw : write i n s = (.ok u, s')) :
     (∀ j, Reach s'.heap r j ↔ Reach s.heap r j) ∧
     (∀ j, Reach s.heap r j → s'.heap[j]? = s.heap[j]?) := by
-  rw [write_run hw]
+  rw [write_run_prov hw]
   exact no_visible_change s.heap r i n hni
 
 /-- A deep copy is insulated from later in-place mutation of the original:
